@@ -361,6 +361,12 @@ def main():
     os.replace(evid_path + ".tmp", evid_path)
 
     # ---- verdict
+    for sig in known_hit:
+        tot = sum(v for k, v in viol_counts.items() if k == sig or (sig.endswith("*") and k.startswith(sig[:-1])))
+        known_hit[sig][1] = max(known_hit[sig][1], tot)
+    cov["known_findings_hit"] = {k: v[1] for k, v in known_hit.items()}
+    json.dump(ev, open(evid_path + ".tmp", "w"), indent=1, default=str)
+    os.replace(evid_path + ".tmp", evid_path)
     for sig, (f, n) in known_hit.items():
         print(f"KNOWN-FINDING: property={pid} {f['what']} [signature {sig}, seen {n}x]")
     for sig, desc, rp in replays:
